@@ -78,21 +78,27 @@ class SimStream(object):
         return False
 
 
+class InjectedMemoryError(MemoryError):
+    """A failing allocation injected by the simulator (a genuine MemoryError still aborts the leg)."""
+
+
 class Interrupter(object):
-    """S5: KeyboardInterrupt at the k-th line event inside PEPit frames."""
+    """S5: KeyboardInterrupt (Ctrl-C) or MemoryError (failing allocation) at the k-th line event inside PEPit frames."""
 
     def __init__(self, world):
         self.world = world
         self.count = 0
         self.at = None
         self.fn = None
+        self.exc = "KeyboardInterrupt"
         self.prefix = env.REPO.rstrip("/") + "/PEPit/"
         self.fired_where = None
 
-    def arm(self, at, fn=None):
+    def arm(self, at, fn=None, exc=None):
         self.count = 0
         self.at = at
         self.fn = fn
+        self.exc = exc or "KeyboardInterrupt"
         self.fired_where = None
         sys.settrace(self._global)
 
@@ -115,6 +121,9 @@ class Interrupter(object):
             if self.at is not None and self.count == self.at:
                 self.at = None
                 self.fired_where = "%s:%d" % (frame.f_code.co_filename[len(self.prefix):], frame.f_lineno)
+                if self.exc == "MemoryError":
+                    self.world.fault_fired("F-alloc")
+                    raise InjectedMemoryError("injected at line event %d" % self.count)
                 self.world.fault_fired("F-interrupt")
                 raise KeyboardInterrupt("injected at line event %d" % self.count)
         return self._local
@@ -357,7 +366,7 @@ class World(object):
             except KeyError as e:
                 out = {"status": "skipped", "missing": [str(e)]}
             except BaseException as e:  # noqa  (KeyboardInterrupt is an injected fault here)
-                if isinstance(e, (SystemExit, MemoryError)):
+                if isinstance(e, (SystemExit, MemoryError)) and not isinstance(e, InjectedMemoryError):
                     raise
                 out = {"status": "exc", "exc_type": type(e).__name__, "msg": str(e)[:300]}
                 if self.opts.get("trace_exc"):
@@ -964,7 +973,8 @@ class World(object):
                 self.stream.fail_at = w0 + int(faults["stdout"]["at"])
                 self.stream.fail_errno = getattr(errno, faults["stdout"].get("errno", "EPIPE"))
             if "interrupt" in faults:
-                self.interrupter.arm(int(faults["interrupt"]["at"]), faults["interrupt"].get("fn"))
+                self.interrupter.arm(int(faults["interrupt"]["at"]), faults["interrupt"].get("fn"),
+                                     faults["interrupt"].get("exc"))
             elif op.get("count_lines"):
                 self.interrupter.arm(None)
             try:
@@ -974,7 +984,7 @@ class World(object):
                     rec.line_events = self.interrupter.disarm()
                 self.stream.fail_at = None
         except BaseException as e:  # noqa
-            if isinstance(e, (SystemExit, MemoryError, HarnessError)):
+            if isinstance(e, (SystemExit, MemoryError, HarnessError)) and not isinstance(e, InjectedMemoryError):
                 raise
             rec.exc = e
         finally:
